@@ -800,6 +800,18 @@ func main() {
 	def("prune_search_guards", "list string", coqStrList(append(searchGuards(findFunc("pkg/prune/prune.go", "findCommitsToRemove")), searchGuards(findFunc("pkg/prune/prune.go", "pruneTables"))...)),
 		"for each sort.Search lookup in prune: is the found slot compared with the key before use")
 
+	pco := "?"
+	if fd := findFunc("pkg/prune/prune.go", "Prune"); fd != nil {
+		src := exprSrc2(fd.Body)
+		switch {
+		case strings.Contains(src, "range childrenFirst(db, commitsToRemove)"):
+			pco = "childrenFirst"
+		case strings.Contains(src, "range commitsToRemove"):
+			pco = "hashOrder"
+		}
+	}
+	def("prune_commit_order", "string", coqStr(pco), "order in which Prune deletes the unreachable commits")
+
 	// ---- worker pool lockset (C16)
 	def("pool_accesses", "list string", coqStrList(lockset(findFunc("pkg/ingest/inserter.go", "Inserter.insertBlock"), "i", []string{"rowsCount", "asyncBlocks"})),
 		"Inserter.insertBlock: accesses to the fields shared between worker goroutines: field:R|W:locked|unlocked")
